@@ -254,8 +254,16 @@ def call(tag, fn, *a):
     except BaseException as e:
         res[tag] = ["raise", type(e).__name__]
 res["flag_at_import"] = bool(config.jaxtyping_disable)
-with install_import_hook("c19_hooked", "typeguard.typechecked"):
+tc_name = sys.argv[4] if len(sys.argv) > 4 else "typeguard.typechecked"
+with install_import_hook("c19_hooked", None if tc_name == "None" else tc_name):
     import c19_hooked as m
+import numpy as np
+def arity(fn):
+    try:
+        fn(1)
+        return "no error"
+    except TypeError as e:
+        return "plain message" if "missing 1 required positional argument" in str(e) else "other message: " + str(e)[:60]
 for step in sys.argv[3].split(","):
     if step == "off":
         config.update("jaxtyping_disable", True)
@@ -265,6 +273,8 @@ for step in sys.argv[3].split(","):
         call(step + ":ill-typed", m.double, "ab")
         call(step + ":well-typed", m.double, 4)
         call(step + ":method", m.K().twice, "ab")
+        call(step + ":shared-context", m.same_len, np.zeros(3, np.float32), np.zeros(4, np.float32))
+        res[step + ":arity"] = ["ret", arity(m.two_args)]
 print("RESULT " + json.dumps(res))
 """
 
@@ -274,21 +284,26 @@ def hooked_module_cases(out):
     loaded again by later interpreters that share its __pycache__ (bytecode writing enabled)"""
     with scratch_dir("jaxverif_c19_") as root:
         with open(os.path.join(root, "c19_hooked.py"), "w") as fh:
-            fh.write("def double(x: int) -> int:\n    return x * 2\nclass K:\n    def twice(self, x: int) -> int:\n        return x + x\n")
-        plain = {"ill-typed": ["ret", repr("abab")], "well-typed": ["ret", "8"], "method": ["ret", repr("abab")]}
-        checked = {"ill-typed": ["tce", None], "well-typed": ["ret", "8"], "method": ["tce", None]}
+            fh.write("import numpy as np\nfrom jaxtyping import Float\ndef double(x: int) -> int:\n    return x * 2\nclass K:\n    def twice(self, x: int) -> int:\n        return x + x\n"
+                     "def same_len(a, b):\n    return isinstance(a, Float[np.ndarray, 'n']) and isinstance(b, Float[np.ndarray, 'n'])\ndef two_args(x, y):\n    return x\n")
+        plain = {"ill-typed": ["ret", repr("abab")], "well-typed": ["ret", "8"], "method": ["ret", repr("abab")], "shared-context": ["ret", "True"], "arity": ["ret", "plain message"]}
+        checked = {"ill-typed": ["tce", None], "well-typed": ["ret", "8"], "method": ["tce", None], "shared-context": ["ret", "False"]}
+        # hooked with typechecker=None: no type errors, but the calls run in a binding context
+        ctx_only = {"ill-typed": ["ret", repr("abab")], "well-typed": ["ret", "8"], "shared-context": ["ret", "False"]}
         # (environment value, steps, expectation per probe step)
         runs = [
             ("TRUE", "p1,on,p2,off,p3", {"p1": plain, "p2": checked, "p3": plain}),
             (None, "p1,off,p2,on,p3", {"p1": checked, "p2": plain, "p3": checked}),
             ("0", "p1", {"p1": checked}),
             ("1", "p1,on,p2", {"p1": plain, "p2": checked}),
+            ("1", "p1,on,p2,off,p3", {"p1": plain, "p2": ctx_only, "p3": plain}, "None"),
+            (None, "p1,off,p2", {"p1": ctx_only, "p2": plain}, "None"),
         ]
-        for envval, steps, want in runs:
+        for envval, steps, want, *tcn in runs:
             env = {k: v for k, v in os.environ.items() if k not in ("JAXTYPING_DISABLE", "PYTHONDONTWRITEBYTECODE")}
             if envval is not None:
                 env["JAXTYPING_DISABLE"] = envval
-            p = subprocess.run([PY, "-c", HOOKED_CHILD, root, REPO, steps], env=env, capture_output=True, text=True, timeout=300, cwd=root)
+            p = subprocess.run([PY, "-c", HOOKED_CHILD, root, REPO, steps] + tcn, env=env, capture_output=True, text=True, timeout=300, cwd=root)
             line = next((l for l in p.stdout.splitlines() if l.startswith("RESULT ")), None)
             out.case(("hooked-module", envval, steps), True, sample={"JAXTYPING_DISABLE": envval, "steps": steps, "result": line})
             if line is None:
@@ -300,6 +315,7 @@ def hooked_module_cases(out):
                     g = res.get(f"{step}:{probe}")
                     if g != w:
                         state = "off" if exp is plain else "on"
+                        envval = f"{envval} (hook typechecker: {tcn[0]})" if tcn else envval
                         out.violation(f"hooked-module:{state}:{probe}",
                                       f"hooked module, JAXTYPING_DISABLE={envval!r}, steps {steps} (shared __pycache__ with the earlier runs): at {step} checking is {state}, "
                                       f"so the {probe} call must give {w} but gives {g}", {"hooked": True, "env": envval, "steps": steps, "observed": res})
